@@ -293,7 +293,7 @@ class Check:
         res = LeanResult()
         t = time.time()
         lock = open(os.path.join(VERIF, "work", ".lake.lock"), "w")
-        fcntl.flock(lock, fcntl.LOCK_EX)
+        fcntl.flock(lock, fcntl.LOCK_SH)  # shared: builds of different property modules may overlap; `flock <file> lake build` (exclusive) is used when Common changes
         try:
             p = sh(["lake", "build"] + list(modules), cwd=LEAN, timeout=7200)
         finally:
@@ -405,7 +405,7 @@ class Check:
     def lean_exe(self, name, relfile):
         """compile a core-only Lean file (and its TfelVerif imports, core-only) to a native driver"""
         lock = open(os.path.join(VERIF, "work", ".lake.lock"), "w")
-        fcntl.flock(lock, fcntl.LOCK_EX)
+        fcntl.flock(lock, fcntl.LOCK_SH)  # shared: builds of different property modules may overlap; `flock <file> lake build` (exclusive) is used when Common changes
         try:
             p = sh(["lake", "build", name], cwd=LEAN, timeout=3600)
         finally:
